@@ -11,7 +11,7 @@ from ..effects import EffectAnalysis
 from ..model import Repo
 from ..report import Report
 from ..tables import module_attr
-from ..util import AnalysisError, always_raises, call_name, chain, names_loaded, norm, parent_map, short, walk_body, walk_local
+from ..util import AnalysisError, always_raises, call_name, chain, names_loaded, norm, parent_map, resolve_local, short, walk_body, walk_local
 from .c02 import node_calls
 from .c05 import call_time_rule
 
@@ -142,7 +142,7 @@ def neutral_rule(repo: Repo, rep: Report, rid: str) -> None:
     for cls in ("TokenParser", "CStyleParser"):
         for fi in repo.cls(cls).methods.values():
             g = None
-            for x in walk_body(fi.node.body):
+            for x in ast.walk(fi.node):  # local helper functions of a method included
                 if isinstance(x, ast.Attribute) and norm(x) == "self.compiled" and isinstance(x.ctx, ast.Load):
                     nflag += 1
                     pm = parent_map(fi.node)
@@ -153,10 +153,10 @@ def neutral_rule(repo: Repo, rep: Report, rid: str) -> None:
                     ok = isinstance(p, ast.If) and _only_selects_reader(p)
                     rep.check(ok, rid, key, "only guards st = compiler.compile(st)",
                               f"the 'compiled' flag influences more than the choice of reader: '{short(p, 80)}'", fi.loc(x))
-    rep.floor(rid, "uses of the compiled flag", nflag, 3)
+    rep.floor(rid, "uses of the compiled flag", nflag, 2)
 
 
-def bookkeeping_rule(repo: Repo, rep: Report, rid: str) -> None:
+def bookkeeping_rule(repo: Repo, rep: Report, rid: str, sizes_decided: bool = False) -> None:
     rep.rule(rid, "result bookkeeping parity: the generated reader sets the same attributes on the result (_sizes, _values) as the interpreter; every "
                   "template that stores r[k] for a byte-occupying field stores s[k] with the same key, the bit-field template stores neither s[k]")
     rd = repo.func("types/structure.py", "StructureMetaType._read")
@@ -215,9 +215,14 @@ def bookkeeping_rule(repo: Repo, rep: Report, rid: str) -> None:
         for x in ast.walk(t.tree):
             if isinstance(x, ast.Assign) and isinstance(x.targets[0], ast.Subscript) and norm(x.targets[0].value) == "s":
                 v = x.value
+                hole = resolve_local(t.func.node, t.holes[v.id]) if isinstance(v, ast.Name) and v.id in t.holes else None
                 ok = (isinstance(v, ast.BinOp) and isinstance(v.op, ast.Sub) and "stream.tell()" == norm(v.left) and isinstance(v.right, ast.Name)) or \
-                     (isinstance(v, ast.Name) and v.id in t.holes and norm(t.holes[v.id]).endswith(".size"))
-                rep.check(ok, rid, f"{t.key}:size-value", f"size is {norm(v) if not isinstance(v, ast.Name) else norm(t.holes.get(v.id, v))}",
+                     (hole is not None and norm(hole).endswith(".size"))
+                if not ok and sizes_decided:
+                    # the compiled-reader fold compares the recorded sizes with the reference on every case: how the generator spells them is free
+                    rep.notes.append(f"advisory {rid}: {t.key}:size-value: recorded size '{norm(v)}' is spelled differently (the compiled-reader fold decides the sizes)")
+                    continue
+                rep.check(ok, rid, f"{t.key}:size-value", f"size is {norm(v) if hole is None else norm(hole)}",
                           f"recorded size '{norm(v)}' is neither tell()-difference nor the static size of the field type", t.loc())
 
 
@@ -545,7 +550,7 @@ def backward_offset_rule(repo: Repo, rep: Report, rid: str) -> None:
 
 
 def run(repo: Repo, rep: Report, tier: str) -> None:
-    from .compiled import compiled_fold_rule, shape_rule
+    from .compiled import compiled_fold_rule, fold_decides, shape_rule
 
     compiled_fold_rule(repo, rep, "C03.R24", tier)
     from .c04 import struct_rw_fold_rule
@@ -567,7 +572,7 @@ def run(repo: Repo, rep: Report, tier: str) -> None:
     offsets_before_compile_rule(repo, rep, "C03.R10")
     fallback_rule(repo, rep, "C03.R1")
     neutral_rule(repo, rep, "C03.R2")
-    bookkeeping_rule(repo, rep, "C03.R3")
+    bookkeeping_rule(repo, rep, "C03.R3", sizes_decided=fold_decides(repo, tier))
     call_time_rule(repo, rep, "C03.R4")
     shape_rule(repo, rep, tier, dispatch_rule, "C03.R5")
     from .c08 import analyse_read_sites
